@@ -260,6 +260,31 @@ def query_message(ctx, q, m, spec, origin, npaths):
             except Exception as ex:
                 ctx.violate('query-result-rendering/raises:%s' % type(ex).__name__, 'rendering the result of %r raised %s' % (full, type(ex).__name__),
                             dict(spec, expr=full), exc=ex)
+    # ---- a query refused while walking the nodes (a child step below a plain element), then the same path again: the
+    # long-lived querent answers like a new one
+    try:
+        from pybufrkit.dataquery import DataQuerent, NodePathParser
+        plain = [str(d) for d in td.decoded_descriptors_all_subsets[0] if str(d)[0] == '0' and str(d)[:3] != '031'][:2]
+        for e in plain:
+            bad = '/%s/%s' % (e, e)
+
+            def oc(qq, ex):
+                try:
+                    return ('values', repr(norm(qq.query(m, ex).all_values())))
+                except Exception as exn:
+                    return ('raises', type(exn).__name__)
+            if used:
+                oc(q, used[0])
+            first = oc(q, bad)
+            again = oc(q, '@[0]' + bad)
+            fresh = oc(DataQuerent(NodePathParser()), '@[0]' + bad)
+            ctx.count('refused_queries_repeated')
+            ctx.evaluated((spec.get('hex', spec.get('file', ''))[:300], 'refused-twice', bad), True)
+            if again != fresh:
+                ctx.violate('refused-query-repeated-differs/%s' % mode, 'query %r was %r; asked again on the same querent it is %r, a new '
+                            'querent says %r' % (bad, first, again, fresh), dict(spec, expr=bad))
+    except Exception as ex:
+        ctx.notes.append('refused-query step unavailable: %r' % (ex,))
     # ---- bare IDs
     attr_ids = set()
     for sub in nodes_all:
